@@ -95,23 +95,51 @@ thread_local! {
     pub static RETURNS: std::cell::RefCell<Vec<(Option<usize>, usize)>> = const { std::cell::RefCell::new(Vec::new()) };
 }
 
-fn run_once<S: Scheduler + 'static>(p: &Arc<Prog>, sched: S, cfg: shuttle::Config) -> Vec<Exec> {
-    let runner = Runner::new(Recorder::new(sched, p.id), cfg);
-    let pr = Arc::clone(p);
-    crate::IN_EXEC.store(true, Ordering::Relaxed);
-    let res = panic::catch_unwind(panic::AssertUnwindSafe(|| runner.run(move || interp::run_main(Arc::clone(&pr)))));
-    crate::IN_EXEC.store(false, Ordering::Relaxed);
-    let ret = match res {
-        Ok(n) => {
-            rec::finish_exec_quiet();
-            Some(n)
-        }
-        Err(e) => {
-            rec::finish_exec(crate::end_event_for_panic(&crate::payload_msg(&e)));
-            None
-        }
-    };
-    let out: Vec<Exec> = rec::take_done_full().into_iter().map(|(events, sched, ok)| Exec { events, sched, sched_ok: ok }).collect();
+/// Number of runs (one `Runner::run` / `replay` call each) that left `std::thread::panicking()` true on their OS thread
+/// after they had returned or their panic had been caught.
+pub static LEFT_PANICKING: std::sync::atomic::AtomicU64 = std::sync::atomic::AtomicU64::new(0);
+
+/// One run on an OS thread of its own, as a test harness gives every test: whatever a run leaves behind in the
+/// OS thread's own state (the panic count of an unwinding that was abandoned, the continuation pool) stays inside that run.
+/// Executions of one run still share everything.
+pub fn isolated<R: Send>(f: impl FnOnce() -> R + Send) -> R {
+    std::thread::scope(|s| {
+        std::thread::Builder::new()
+            .stack_size(8 << 20)
+            .spawn_scoped(s, move || {
+                let r = f();
+                if std::thread::panicking() {
+                    LEFT_PANICKING.fetch_add(1, Ordering::SeqCst);
+                }
+                r
+            })
+            .expect("spawn")
+            .join()
+            .expect("isolated run")
+    })
+}
+
+fn run_once<S: Scheduler + Send + 'static>(p: &Arc<Prog>, sched: S, cfg: shuttle::Config) -> Vec<Exec> {
+    let (ret, out) = isolated(move || {
+        rec::reset_log_keep_tokens();
+        let runner = Runner::new(Recorder::new(sched, p.id), cfg);
+        let pr = Arc::clone(p);
+        crate::IN_EXEC.store(true, Ordering::Relaxed);
+        let res = panic::catch_unwind(panic::AssertUnwindSafe(|| runner.run(move || interp::run_main(Arc::clone(&pr)))));
+        crate::IN_EXEC.store(false, Ordering::Relaxed);
+        let ret = match res {
+            Ok(n) => {
+                rec::finish_exec_quiet();
+                Some(n)
+            }
+            Err(e) => {
+                rec::finish_exec(crate::end_event_for_panic(&crate::payload_msg(&e)));
+                None
+            }
+        };
+        let out: Vec<Exec> = rec::take_done_full().into_iter().map(|(events, sched, ok)| Exec { events, sched, sched_ok: ok }).collect();
+        (ret, out)
+    });
     RETURNS.with(|r| r.borrow_mut().push((ret, out.len())));
     out
 }
@@ -219,23 +247,25 @@ pub fn sample_program(p: &Prog, iters: usize, seed: u64, outdir: &str, idx: usiz
                 // through the public entry points (default Config): compare the bodies' own op logs
                 for via in ["replay", "replay_from_file"] {
                     rec::reset_log();
-                    rec::open_plain();
                     let pr = Arc::clone(&prog);
                     let sch = ex.sched.clone();
                     let path = format!("{outdir}/p{idx}.schedule.txt");
                     if via == "replay_from_file" {
                         std::fs::write(&path, &sch).unwrap();
                     }
-                    crate::IN_EXEC.store(true, Ordering::Relaxed);
-                    let _ = panic::catch_unwind(panic::AssertUnwindSafe(|| {
-                        if via == "replay" {
-                            shuttle::replay(move || interp::run_main(Arc::clone(&pr)), &sch);
-                        } else {
-                            shuttle::replay_from_file(move || interp::run_main(Arc::clone(&pr)), &path);
-                        }
-                    }));
-                    crate::IN_EXEC.store(false, Ordering::Relaxed);
-                    let got = rec::take_plain();
+                    let got = isolated(|| {
+                        rec::open_plain();
+                        crate::IN_EXEC.store(true, Ordering::Relaxed);
+                        let _ = panic::catch_unwind(panic::AssertUnwindSafe(|| {
+                            if via == "replay" {
+                                shuttle::replay(move || interp::run_main(Arc::clone(&pr)), &sch);
+                            } else {
+                                shuttle::replay_from_file(move || interp::run_main(Arc::clone(&pr)), &path);
+                            }
+                        }));
+                        crate::IN_EXEC.store(false, Ordering::Relaxed);
+                        rec::take_plain()
+                    });
                     replays += 1;
                     if ops_only(&got) != ops_only(&ex.events) && mismatches.len() < 20 {
                         mismatches.push(json!({"kind":"replay-differs","variant":via,"sched":kind,"schedule":ex.sched,
@@ -251,19 +281,22 @@ pub fn sample_program(p: &Prog, iters: usize, seed: u64, outdir: &str, idx: usiz
     }
     // the nondeterminism checker must not reject a body whose only nondeterminism is scheduling and rand
     rec::reset_log();
-    rec::open_plain();
     let pr = Arc::clone(&prog);
     let und = UncontrolledNondeterminismCheckScheduler::new(RandomScheduler::new_from_seed(seed.wrapping_add(3), iters.min(30)));
-    let runner = Runner::new(und, cfg.clone());
-    crate::IN_EXEC.store(true, Ordering::Relaxed);
-    let res = panic::catch_unwind(panic::AssertUnwindSafe(|| {
-        runner.run(move || interp::run_main(Arc::clone(&pr)));
-    }));
-    crate::IN_EXEC.store(false, Ordering::Relaxed);
-    let _ = rec::take_plain();
+    let ucfg = cfg.clone();
+    let res = isolated(move || {
+        rec::open_plain();
+        let runner = Runner::new(und, ucfg);
+        crate::IN_EXEC.store(true, Ordering::Relaxed);
+        let res = panic::catch_unwind(panic::AssertUnwindSafe(|| {
+            runner.run(move || interp::run_main(Arc::clone(&pr)));
+        }));
+        crate::IN_EXEC.store(false, Ordering::Relaxed);
+        let _ = rec::take_plain();
+        res.map_err(|e| crate::payload_msg(&e))
+    });
     let mut und_verdict = "passed".to_string();
-    if let Err(e) = res {
-        let msg = crate::payload_msg(&e);
+    if let Err(msg) = res {
         if msg.starts_with("possible nondeterminism") {
             mismatches.push(json!({"kind":"nondeterminism-checker-rejected","msg":msg}));
             und_verdict = "rejected".into();
@@ -272,6 +305,6 @@ pub fn sample_program(p: &Prog, iters: usize, seed: u64, outdir: &str, idx: usiz
         }
     }
     let meta = json!({"prog": p.id, "execs": all.len(), "by_scheduler": counts, "replays": replays, "failing": failing,
-                      "und": und_verdict, "budgets": budgets, "mismatches": mismatches, "capped": false, "nondet": null, "outcomes": []});
+                      "und": und_verdict, "left_panicking": LEFT_PANICKING.load(Ordering::SeqCst), "budgets": budgets, "mismatches": mismatches, "capped": false, "nondet": null, "outcomes": []});
     (all, meta)
 }
